@@ -66,8 +66,12 @@ func NewStreamDecoder(r io.Reader) *StreamDecoder {
 // Either io error from underlying io.Reader (except io.EOF)
 // or syntax error from data will be recorded and stop subsequently decoding.
 func (self *StreamDecoder) Decode(val interface{}) (err error) {
-	// read more data into buf
-	if self.More() {
+	if self.err != nil {
+		return self.err
+	}
+
+	// read more data into buf; a closing bracket is not "no more values" at top level
+	if _, perr := self.peek(); perr == nil {
 		var s = self.scanp
 	try_skip:
 		var e = len(self.buf)
